@@ -15,3 +15,4 @@ open Qvnt
 #print axioms C06_repeat
 #print axioms C06_code_measure
 #print axioms C06_code_empty
+#print axioms C06_code_repeat
